@@ -45,6 +45,10 @@ func (am *Machine) handleReinitDKG(operation *client.Operation) error {
 		if !o.Event.IsEmpty() || fsm.State(o.Type) == signature_proposal_fsm.StateAwaitParticipantsConfirmations {
 			continue
 		}
+		// a reinit operation rebuilds one round: a step naming another round must not touch that round's keys
+		if o.DKGIdentifier != operation.DKGIdentifier {
+			return fmt.Errorf("reinit operation of round %s contains a step of round %s", operation.DKGIdentifier, o.DKGIdentifier)
+		}
 		if _, err := am.GetOperationResult(o); err != nil {
 			return fmt.Errorf("failed to process operation: %w", err)
 		}
